@@ -247,6 +247,14 @@ pub fn cases_for(prop: &str, tier: &str, seed: u64, shard: (usize, usize)) -> (V
                 cases.push(Case { id: format!("ok{}x{}", shard.0, i), family: "valid-by-construction".into(), schema: si_idx, op: "validate".into(),
                     doc: Some(doc.print()), extra: vec![all.clone()], note: String::new() });
             }
+            // several operations sharing a DAG of fragments that use variables: valid by construction
+            {
+                let synth = pool.iter().position(|s| s.name == "synthetic").unwrap();
+                for (i, d) in crate::families::valid_variable_dag_cases(&mut rng, budget(tier, 1600, 40000) / shard.1).into_iter().enumerate() {
+                    cases.push(Case { id: format!("vd{}x{}", shard.0, i), family: "valid-variable-dags".into(), schema: synth, op: "validate".into(),
+                        doc: Some(d.print()), extra: vec![all.clone()], note: String::new() });
+                }
+            }
             // the targeted families of the rule properties (their spec-valid members count here)
             for fp in ["C04", "C05", "C06", "C07", "C08", "C09", "C10", "C11", "GRAPH"] {
                 for mut c in exhaustive_family(fp, tier, &mut rng, shard, &pool) {
@@ -338,7 +346,7 @@ pub fn cases_for(prop: &str, tier: &str, seed: u64, shard: (usize, usize)) -> (V
                         2 => graph4_doc(&mut rng),
                         // a subscription whose root type implements several interfaces, fragments on each of them
                         4 => {
-                            let tc = *rng.pick(&["Named", "Node", "Subscription"]);
+                            let tc = *rng.pick(&["Named", "Node", "Subscription", "Ev"]);
                             crate::families::subscription_graph_cases_on(&mut rng, 1, tc, "name", "other").pop().unwrap()
                         }
                         // several operations and fragments sharing variables and, now and then, NAMES
@@ -994,6 +1002,9 @@ pub fn exhaustive_family(prop: &str, tier: &str, rng: &mut Rng, shard: (usize, u
             for d in variable_site_cases() {
                 docs.push(("variable-sites".to_string(), d.print()));
             }
+            for d in valid_variable_dag_cases(rng, budget(tier, 1500, 30000)) {
+                docs.push(("valid-variable-dags".to_string(), d.print()));
+            }
             let vo = variable_object_cases();
             let nvo = budget(tier, 2500, vo.len());
             for d in pick_sample(vo, nvo, rng) {
@@ -1070,6 +1081,9 @@ pub fn exhaustive_family(prop: &str, tier: &str, rng: &mut Rng, shard: (usize, u
             }
             for d in merge_exclusive_fragment_cases() {
                 docs.push(("merge-exclusive-fragments".to_string(), d.print()));
+            }
+            for d in merge_argument_order_cases() {
+                docs.push(("merge-argument-order".to_string(), d.print()));
             }
         }
         "C10" => {
@@ -1154,6 +1168,20 @@ pub fn exhaustive_family(prop: &str, tier: &str, rng: &mut Rng, shard: (usize, u
             }
         }
     }
+    if prop == "C11" {
+        // a subscription root that implements interfaces (two levels) and is a member of a union:
+        // fragments on the root, on each interface, on the union and on unrelated types
+        if let Some(lonely) = pool.iter().position(|s| s.name == "lonely") {
+            let mut i = 0usize;
+            for d in subscription_graph_cases_tcs(rng, budget(tier, 1500, 30000), "name", "other", &["Subscription", "Named", "Node", "Pet", "Ev", "User", "U"]) {
+                i += 1;
+                if i % shard.1 != shard.0 {
+                    continue;
+                }
+                out.push(Case { id: format!("sl{}x{}", shard.0, i), family: "subscription-graphs-abstract".into(), schema: lonely, op: "validate".into(), doc: Some(d.print()), extra: vec![], note: String::new() });
+            }
+        }
+    }
     if prop == "C04" {
         let mut i = 0usize;
         for (si_idx, si) in pool.iter().enumerate() {
@@ -1176,6 +1204,13 @@ pub fn exhaustive_family(prop: &str, tier: &str, rng: &mut Rng, shard: (usize, u
                     continue;
                 }
                 out.push(Case { id: format!("sp{}x{}", shard.0, i), family: "spread-pairs".into(), schema: si_idx, op: "validate".into(), doc: Some(text), extra: vec![], note: String::new() });
+            }
+            for text in fragment_condition_cases(si) {
+                i += 1;
+                if i % shard.1 != shard.0 {
+                    continue;
+                }
+                out.push(Case { id: format!("fc{}x{}", shard.0, i), family: "fragment-conditions".into(), schema: si_idx, op: "validate".into(), doc: Some(text), extra: vec![], note: String::new() });
             }
         }
     }
